@@ -9,7 +9,7 @@
 // remains in the set, its routine is never executing in two instances at once").
 // Phase 3 (C07, exit status 5): keys are set, removed, restarted and reset (with condition callbacks) at random; then every
 // key is removed.  Oracle: "when a key is removed the running instance's context is cancelled and nothing for that key
-// is started again": 3 s later no instance is inside its routine.
+// is started again": 5 s later no instance is inside its routine.
 // Phase 4 (C07, exit status 5): calls queued behind a long critical section in a chosen order (see there).
 // Phase 2 (C06, exit status 6): a KeyedRefCount; goroutines take a reference on a random key, check that GetKey reports
 // the key while they hold the reference, release it (sometimes twice).  Oracle: a reference-counted key is present while
@@ -215,11 +215,11 @@ func TestKeyedFree(t *testing.T) {
 		}
 		stats["free.c07.remove_phase_calls"] = int(ops.Load())
 		stats["free.c07.remove_phase_entries"] = int(entries.Load())
-		deadline := time.Now().Add(3 * time.Second)
+		deadline := time.Now().Add(5 * time.Second)
 		for inside.Load() != 0 {
 			if time.Now().After(deadline) {
 				cancel()
-				freeReport(5, fmt.Sprintf("every key has been removed (no release delay), yet %d instance(s) are still inside their routine 3 s later: started for a removed key, or never cancelled", inside.Load()), stats)
+				freeReport(5, fmt.Sprintf("every key has been removed (no release delay), yet %d instance(s) are still inside their routine 5 s later: started for a removed key, or never cancelled", inside.Load()), stats)
 			}
 			time.Sleep(time.Millisecond)
 		}
